@@ -60,7 +60,29 @@ def gen_case(ctx):
         'cutbits': rng.choice([1, 2, 3, 7, 8, 9, 64, L, L + 1, 0, -1]),
         'cntval': rng.choice([0, 1, True, False, 7, '']),
         'new': rb(rng, rng.choice([0, 1, 2, 3, 8, 9])),
+        # where the receiver's bits live: in memory, or in a (longer) file of which it is a window
+        'via': rng.choice([None, None, None, None, 'file-limited', 'file-offset', 'file-window-aligned', 'slice-of-longer']),
     }
+
+
+_TMP = []
+
+
+def receiver_via(cls, d, via):
+    """An object of class cls holding the bits d, which are a window of something longer (all-ones junk around it)."""
+    import atexit, os, shutil, tempfile
+    L = len(d)
+    if via == 'slice-of-longer':
+        return mk(cls, '1101' + d + '11111111111')[4:4 + L]
+    if not _TMP:
+        _TMP.append(tempfile.mkdtemp(prefix='rv_c07_'))
+        atexit.register(shutil.rmtree, _TMP[0], True)
+    pre = {'file-limited': 0, 'file-offset': 11, 'file-window-aligned': 16}[via]
+    bits = '1' * pre + d + '1' * (8 - (pre + L) % 8) + '1' * 24
+    path = os.path.join(_TMP[0], f'w{os.getpid()}.bin')
+    with open(path, 'wb') as f:
+        f.write(int(bits, 2).to_bytes(len(bits) // 8, 'big'))
+    return cls(filename=path, length=L, offset=pre) if pre else cls(filename=path, length=L)
 
 
 HIST_OPS = ['iand', 'ior', 'ixor', 'invert', 'reverse', 'set', 'ilshift', 'irshift', 'rol', 'ror', 'append', 'prepend', 'overwrite',
@@ -229,6 +251,12 @@ def judge(ctx, c):
                 ctx.op('history-step:' + op_)
             if B(s) != d:
                 ctx.mismatch('C07|history|content-after-mutators|differs-from-model', c, f'{B(s)[:80]} vs {d[:80]}')
+                return
+        elif c.get('via'):
+            s = receiver_via(cls, d, c['via'])
+            ctx.op('receiver:' + c['via'])
+            if B(s) != d:
+                ctx.mismatch('C07|receiver|' + c['via'] + '|content', c, f'{B(s)[:80]} vs {d[:80]}')
                 return
         else:
             s = mk(cls, d)
